@@ -406,16 +406,17 @@ def eval_md4_oneshot(data):
         return [(f"C11|md4|oneshot:{tc}:raises:{_exc(e)}", f"md4 over {n} bytes raised {e!r}")]
     if d1 != want:
         out.append((f"C11|md4|oneshot:{tc}:value", f"md4({n} bytes).digest() = {d1.hex()}, RFC 1320 reference {want.hex()}"))
-    if d3 != want:
+    # the other call paths are reported under their own key only when they differ from the one-shot path
+    if d3 != want and d3 != d1:
         out.append((f"C11|md4|update:{tc}:value", f"md4().update({n} bytes).digest() = {d3.hex()}, reference {want.hex()}"))
-    if d5 != want:
+    if d5 != want and d5 != d1:
         out.append((f"C11|md4|update:{tc}:empty_updates", f"md4 with empty update() calls around {n} bytes = {d5.hex()}, reference {want.hex()}"))
     if d2 != d1:
         out.append((f"C11|md4|digest:{tc}:idempotent", f"second digest() over {n} bytes = {d2.hex()}, first {d1.hex()}"))
-    if hx != want.hex() or not isinstance(hx, str):
-        out.append((f"C11|md4|hexdigest:{tc}:value", f"hexdigest() over {n} bytes = {hx!r}, reference {want.hex()!r}"))
+    if hx != d1.hex() or not isinstance(hx, str):
+        out.append((f"C11|md4|hexdigest:{tc}:value", f"hexdigest() over {n} bytes = {hx!r}, digest() {d1.hex()!r}"))
     w4 = ref_md4(data + more)
-    if d4 != w4:
+    if d4 != w4 and d1 == want:
         out.append((f"C11|md4|digest:{tc}:then_update", f"update() after digest() over {n}+{len(more)} bytes = {d4.hex()}, reference {w4.hex()}"))
     return out
 
@@ -658,7 +659,7 @@ def eval_hmac(name, key, msg, mode):
                             f"compile_hmac({name!r}, key of {len(kb)} bytes)({len(msg)} bytes) = {got.hex()}, RFC 2104 reference {want.hex()}"))
             # the compiled function is reusable
             got2 = f(msg[::-1])
-            if got2 != hmac_expected(name, kb, msg[::-1]) or f(msg) != got:
+            if got == want and (got2 != hmac_expected(name, kb, msg[::-1]) or f(msg) != got):
                 out.append((f"C11|hmac|{name}:{kc}:{mode}:reuse", f"compile_hmac({name!r}) function gives different answers when reused"))
         else:
             f = compile_hmac(name, key, multipart=True)
@@ -676,9 +677,9 @@ def eval_hmac(name, key, msg, mode):
             if got != want or again != want:
                 out.append((f"C11|hmac|{name}:{kc}:multi:value",
                             f"compile_hmac({name!r}, key of {len(kb)} bytes, multipart=True) over {cut}+{len(msg) - cut} bytes = {got.hex()}, reference {want.hex()}"))
-            if mid != hmac_expected(name, kb, msg[:cut]):
+            if got == want and mid != hmac_expected(name, kb, msg[:cut]):
                 out.append((f"C11|hmac|{name}:{kc}:multi:partial", f"finalize() after the first {cut} bytes = {mid.hex()}"))
-            if fresh != hmac_expected(name, kb, b""):
+            if got == want and fresh != hmac_expected(name, kb, b""):
                 out.append((f"C11|hmac|{name}:{kc}:multi:fresh", f"a second hmac() instance is not independent of the first"))
     except HarnessError:
         raise
@@ -795,10 +796,12 @@ def sasl_ref_class(text):
     kind, val = RS.explain(text, True)
     if kind == "ok":
         return acc_strict, "ok_same" if val == text else "ok_changed"
-    if val == "A.1" and RS.explain(text, False)[0] == "ok":
-        # unassigned in Unicode 3.2, but the running interpreter's newer NFKC rewrites it before the A.1 test
+    loose_kind, loose_val = RS.explain(text, False)
+    if loose_kind == "ok":
+        # only the A.1 test on the un-normalised text refuses it: a code point unassigned in Unicode 3.2 that the
+        # running interpreter's newer NFKC rewrites into assigned ones before the output test can see it
         return acc_strict, "refused_A.1_rewritten_by_newer_NFKC"
-    return acc_strict, f"refused_{val}"
+    return acc_strict, f"refused_{loose_val}"
 
 
 def eval_saslprep(text):
